@@ -1,0 +1,21 @@
+//go:build verif
+
+// Contracts for package postprocessor (gRPC scenario assertions), checked by /verif/govc. Comment-only: no code.
+package postprocessor
+
+// A status-code mismatch, a missing response and a missing payload fragment fail the step with an error: never a fault,
+// whatever the server answered (a nil response included).
+//@ func (a AssertResponse) Process
+//@ props C19 C15
+//@ nilsafe
+//@ modifies nothing
+//@ ensures [no-variables] result0 == nil
+//@ ensures [code-mismatch-fails] imp(a.StatusCode != 0 && a.StatusCode != code, result1 != nil)
+//@ ensures [no-payload-patterns-passes] imp((a.StatusCode == 0 || a.StatusCode == code) && len(a.Payload) == 0, result1 == nil)
+//@ ensures [missing-response-fails] imp((a.StatusCode == 0 || a.StatusCode == code) && len(a.Payload) > 0 && out == nil, result1 != nil)
+//@ loop 0 invariant [every-pattern-so-far-is-in-the-response] forall(k, 0, rangeidx, strings.Contains(o, a.Payload[k]))
+//@ ensures [every-pattern-must-be-in-the-response] imp(result1 == nil && len(a.Payload) > 0, forall(k, 0, len(a.Payload), strings.Contains(o, a.Payload[k])))
+
+//@ func NewAssertResponsePostprocessor
+//@ props C19 C15
+//@ ensures result1 == nil && typeis(result0, *AssertResponse) && result0.(*AssertResponse).StatusCode == cfg.StatusCode && result0.(*AssertResponse).Payload == cfg.Payload
